@@ -27,7 +27,9 @@ RULE = ("seeded histories of 1-3 client connections (shared or distinct source a
         "requests inside the tunnel, reverse/transparent origin-form requests and SOCKS5 method/user-pass negotiations, each with credentials "
         "that are good / wrong / missing / malformed (bad base64, stripped or extra padding, wrong scheme, no colon, "
         "duplicate headers, wrong header for the path, latin-1 instead of UTF-8) incl. passwords with ':', non-ASCII and "
-        "empty passwords, x segmentation x eager/lazy connection strategy. Oracle: an independent RFC 7617 / RFC 1929 "
+        "empty passwords, x segmentation x eager/lazy connection strategy x body handling options (stream_large_bodies, "
+        "body_size_limit, store_streamed_bodies) with request bodies just below / at / above those thresholds, "
+        "Content-Length and chunked, arriving in one or several segments, with and without Expect: 100-continue. Oracle: an independent RFC 7617 / RFC 1929 "
         "reading of what was presented + a model of the configured validator decides accept / reject / unspecified per "
         "request; checked against what origin / upstream-proxy peers RECEIVED and what the client got back. "
         "non-trivial = at least one request was forwarded AND at least one was refused; distinct = distinct event-log digests")
@@ -45,7 +47,9 @@ ASSUMPTIONS = ["VLoop keeps asyncio FIFO semantics; SimNet pipes behave like rel
 EXPECTED_PROBES = ["accepted_forwarded", "rejected_challenged", "connect_accepted", "connect_rejected", "connect_retry",
                    "tunnel_inner_forwarded", "tunnel_inner_https", "socks_accepted", "socks_rejected", "socks_no_userpass_method",
                    "reverse_401", "proxy_407", "either_verdict", "colon_password_presented", "non_ascii_presented",
-                   "htpasswd_runs", "bcrypt_entries", "same_address_clients", "pipelined_batches", "handled_as_raw_tcp"]
+                   "htpasswd_runs", "bcrypt_entries", "same_address_clients", "pipelined_batches", "handled_as_raw_tcp",
+                   "body_requests", "chunked_body_requests", "expect_100_continue", "body_over_stream_threshold",
+                   "unauthenticated_body_over_stream_threshold", "over_body_size_limit"]
 
 HT_PATH = "/sim/c20/htpasswd"
 BCRYPT_SALT = "$2b$04$abcdefghijklmnopqrstuu"
@@ -316,10 +320,30 @@ def http_cred(r, v, good, header):
     return {"headers": hs, "label": label}
 
 
-def gen_req(r, tok, v, good, header, inner=False):
-    d = {"op": "req", "tok": tok, "method": r.choice(["GET", "GET", "GET", "POST"]), "hostn": r.randrange(3)}
-    if d["method"] == "POST":
-        d["body"] = "b" * r.choice([0, 1, 30, 400])
+def parse_size(s):
+    """mitmproxy size option syntax as documented: digits with an optional k/m/g suffix."""
+    if s is None:
+        return None
+    s = str(s).strip().lower()
+    mult = {"k": 1024, "m": 1024 ** 2, "g": 1024 ** 3}.get(s[-1:], 1)
+    return int(s[:-1] if s[-1:] in "kmg" else s) * mult
+
+
+def gen_req(r, tok, v, good, header, inner=False, thresholds=()):
+    """thresholds: byte sizes at which the proxy changes how it handles a request body (stream_large_bodies,
+    body_size_limit); bodies are drawn around them."""
+    d = {"op": "req", "tok": tok, "hostn": r.randrange(3)}
+    d["method"] = r.choice(["GET", "GET", "GET", "POST"]) if not thresholds else r.choice(["GET", "POST", "POST", "PUT"])
+    if d["method"] != "GET":
+        sizes = [0, 1, 30, 400]
+        for t in thresholds:
+            sizes += [t - 1, t, t + 1, t + 1, 2 * t + 5, 3 * t + 100]
+        d["body"] = "b" * max(0, r.choice(sizes))
+        if r.random() < (0.4 if thresholds else 0.15):
+            d["te"] = "chunked"
+            d["chunk"] = r.choice([1, 2, 7, 64, 1000])
+        if d["body"] and r.random() < (0.2 if thresholds else 0.05):
+            d["expect"] = True   # Expect: 100-continue; the client sends the body after a 100 or after one second
     if inner:
         # inside an authenticated tunnel / SOCKS connection: usually no proxy credentials at all
         d["cred"] = None if r.random() < 0.8 else http_cred(r, v, good, header)
@@ -340,10 +364,12 @@ def assign_cuts(r, fam, steps):
             host = ("t" if s["op"] == "connect" else "s") + f"{s['tok']}.test"
             units.extend(([q], "inner", host) for q in s["requests"])
     for unit, level, host in units:
-        if not unit or r.random() >= 0.3:
+        has_body = any(q.get("body") for q in unit)
+        if not unit or r.random() >= (0.5 if has_body else 0.3):
             continue
         n = sum(len(build_request(dict(q, _host=host), fam, level)) for q in unit)
-        cuts = G.gen_cuts(r, n, style=r.choice(["few", "many", "head", "head"]))
+        # bodies should arrive in several segments: prefer cut points spread over the whole message
+        cuts = G.gen_cuts(r, n, style=r.choice(["few", "many", "few", "many", "head"] if has_body else ["few", "many", "head", "head"]))
         unit[0]["cuts"] = cuts
         unit[0]["gaps"] = G.gen_gaps(r, len(cuts))
 
@@ -355,6 +381,17 @@ def generate(rng, tier):
     v = gen_validator(r)
     good = good_pairs(r, v)
     header = "Proxy-Authorization" if fam in ("regular", "upstream") else "Authorization"
+    # options that change how the proxy handles request bodies (buffer / stream / refuse)
+    options = {"connection_strategy": r.choice(["eager", "lazy"])}
+    if r.random() < 0.6:
+        if r.random() < 0.75:
+            options["stream_large_bodies"] = r.choice(["3", "50", "1k"])
+        if r.random() < 0.35:
+            # >= 100 so that the peers' own (small) replies are never affected
+            options["body_size_limit"] = r.choice(["100", "1k", "3k"])
+        if r.random() < 0.3:
+            options["store_streamed_bodies"] = True
+    thresholds = tuple(parse_size(options[k]) for k in ("stream_large_bodies", "body_size_limit") if k in options)
     tok = [0]
 
     def nt():
@@ -370,19 +407,19 @@ def generate(rng, tier):
             for _ in range(r.choice([1, 2, 3, 4])):
                 t = r.random()
                 if t < 0.5:
-                    steps.append(gen_req(r, nt(), v, good, header))
+                    steps.append(gen_req(r, nt(), v, good, header, thresholds=thresholds))
                 elif t < 0.65:
-                    steps.append({"op": "batch", "requests": [gen_req(r, nt(), v, good, header) for _ in range(r.choice([2, 3, 4]))]})
+                    steps.append({"op": "batch", "requests": [gen_req(r, nt(), v, good, header, thresholds=thresholds) for _ in range(r.choice([2, 3, 4]))]})
                 else:
                     steps.append({"op": "connect", "tok": nt(), "cred": http_cred(r, v, good, header),
                                   "tls": r.random() < 0.2,   # CONNECT host:443, then HTTPS inside the tunnel
-                                  "requests": [gen_req(r, nt(), v, good, header, inner=True) for _ in range(r.choice([1, 2, 3]))]})
+                                  "requests": [gen_req(r, nt(), v, good, header, inner=True, thresholds=thresholds) for _ in range(r.choice([1, 2, 3]))]})
         elif fam in ("reverse", "transparent"):
             for _ in range(r.choice([1, 2, 3, 4])):
                 if r.random() < 0.75:
-                    steps.append(gen_req(r, nt(), v, good, header))
+                    steps.append(gen_req(r, nt(), v, good, header, thresholds=thresholds))
                 else:
-                    steps.append({"op": "batch", "requests": [gen_req(r, nt(), v, good, header) for _ in range(r.choice([2, 3]))]})
+                    steps.append({"op": "batch", "requests": [gen_req(r, nt(), v, good, header, thresholds=thresholds) for _ in range(r.choice([2, 3]))]})
         else:  # socks5
             t = r.random()
             if t < 0.5:
@@ -402,7 +439,7 @@ def generate(rng, tier):
             steps.append({"op": "socks", "tok": nt(), "methods": methods, "label": label,
                           "user": X.S(pair[0].encode(enc)[:255]), "pass": X.S(pair[1].encode(enc)[:255]),
                           "pipelined": r.random() < 0.2,
-                          "requests": [gen_req(r, nt(), v, good, header, inner=True) for _ in range(r.choice([1, 2, 3]))]})
+                          "requests": [gen_req(r, nt(), v, good, header, inner=True, thresholds=thresholds) for _ in range(r.choice([1, 2, 3]))]})
         assign_cuts(r, fam, steps)
         same = ci > 0 and r.random() < 0.5
         # the same (address, port) can only come back after the earlier connection is gone
@@ -410,7 +447,7 @@ def generate(rng, tier):
                         "port": clients[0]["port"] if same and sequential and r.random() < 0.6 else 50000 + ci,
                         "start": r.choice([0.0, 0.0, 0.002, 0.3, 2.0, 40.0]) * (1 if sequential else ci), "steps": steps})
     sc = {"family": fam, "modes": [mode], "eager": r.random() < 0.5, "validator": v, "sequential": sequential,
-          "options": {"connection_strategy": r.choice(["eager", "lazy"])}, "clients": clients}
+          "options": options, "clients": clients}
     return sc
 
 
@@ -453,6 +490,12 @@ def proxyauth_option(v) -> str:
 
 
 def build_request(step, fam, level) -> bytes:
+    head, wire = request_parts(step, fam, level)
+    return head + wire
+
+
+def request_parts(step, fam, level):
+    """-> (header section, body as sent on the wire)"""
     tok = step["tok"]
     if level == "inner":
         host, target = step["_host"], f"/r{tok}"
@@ -469,10 +512,18 @@ def build_request(step, fam, level) -> bytes:
     lines.append("User-Agent: c20")
     for n, val in hs:
         lines.append(f"{n}: {val}")
-    body = X.B(step.get("body", "")) if step["method"] == "POST" else b""
-    if step["method"] == "POST":
-        lines.append(f"Content-Length: {len(body)}")
-    return ("\r\n".join(lines) + "\r\n\r\n").encode("latin1") + body
+    body = X.B(step.get("body", "")) if step["method"] != "GET" else b""
+    wire = body
+    if step["method"] != "GET":
+        if step.get("te") == "chunked":
+            lines.append("Transfer-Encoding: chunked")
+            k = max(1, int(step.get("chunk", 64)))
+            wire = b"".join(b"%x\r\n%s\r\n" % (len(body[i:i + k]), body[i:i + k]) for i in range(0, len(body), k)) + b"0\r\n\r\n"
+        else:
+            lines.append(f"Content-Length: {len(body)}")
+        if step.get("expect") and body:
+            lines.append("Expect: 100-continue")
+    return ("\r\n".join(lines) + "\r\n\r\n").encode("latin1"), wire
 
 
 def _cuts(step, n):
@@ -480,14 +531,20 @@ def _cuts(step, n):
 
 
 async def do_requests(cl, ci, reqs, fam, level, recs, host=None):
-    datas = []
-    for s in reqs:
-        s = dict(s)
-        s["_host"] = host
-        datas.append(build_request(s, fam, level))
-    data = b"".join(datas)
+    parts = [request_parts(dict(s, _host=host), fam, level) for s in reqs]
+    data = b"".join(h + b for h, b in parts)
     cuts, gaps = _cuts(reqs[0], len(data))
-    await cl.stream.send(data, cuts, gaps)
+    if len(reqs) == 1 and reqs[0].get("expect") and parts[0][1]:
+        # Expect: 100-continue: header section first, body once the proxy said 100 (or anything else) or after 1 s
+        head, wire = parts[0]
+        hc = [c for c in cuts if c < len(head)]
+        await cl.stream.send(head, hc, gaps)
+        if len(cl.stream.buf) <= cl.pos:
+            await cl.stream.more(1.0)
+        bc = [c - len(head) for c in cuts if c > len(head)]
+        await cl.stream.send(wire, bc, gaps[len(hc) + 1:])
+    else:
+        await cl.stream.send(data, cuts, gaps)
     ok = True
     for s in reqs:
         rec = {"ci": ci, "kind": "req", "tok": s["tok"], "level": level, "step": s, "batch": len(reqs) > 1}
@@ -647,6 +704,7 @@ def run(sc, keep_log=False):
 # oracle
 # ---------------------------------------------------------------------------
 TOK_RE = re.compile(rb"/r(\d+)$")
+RAW_TOK_RE = re.compile(rb"^[A-Z]+ [^ \r\n]*/r(\d+) HTTP/1\.[01]\r\n", re.M)
 
 
 def oracle(sc, log, recs, w):
@@ -673,6 +731,11 @@ def oracle(sc, log, recs, w):
     for e in log:
         m = e.get("msg")
         if m is None:
+            # bytes of a request the peer never got completely (streamed and abandoned, or unreadable): they count as
+            # forwarded all the same
+            for t in RAW_TOK_RE.finditer(e.get("raw", b"")):
+                got_req.setdefault(int(t.group(1)), []).append(e)
+                bump("partial_request_at_peer")
             continue
         if m.method.upper() == b"CONNECT":
             got_connect.setdefault(m.target.split(b":")[0].decode("latin1"), []).append(e)
@@ -696,11 +759,36 @@ def oracle(sc, log, recs, w):
                         info["t1"] is None or t <= info["t1"]):
                     raw_tcp.add(ci)
 
+    limit = parse_size(sc.get("options", {}).get("body_size_limit"))
+    stream_at = parse_size(sc.get("options", {}).get("stream_large_bodies"))
+
+    def over_limit(step):
+        return limit is not None and step.get("method") != "GET" and len(step.get("body", "")) > limit
+
+    def streamed(step):
+        return stream_at is not None and step.get("method") != "GET" and len(step.get("body", "")) > stream_at
+
     connect_407: dict = {}
     tunnel_ok: dict = {}  # ci -> verdict of the CONNECT / SOCKS negotiation that opened the tunnel
+    # context for a crash: did the run contain a request with a body over the streaming threshold whose credentials the
+    # proxy need not accept (missing / wrong / not strictly well-formed)?
+    unauth_streamed = any(r_["kind"] == "req" and r_["level"] == "outer" and streamed(r_["step"]) and
+                          verdict_http(model, r_["step"].get("cred"), path_header)[0] != "accept" for r_ in recs)
+    size_refused: dict = {}  # ci -> an earlier request on this connection was over body_size_limit
     for rec in recs:
         step = rec["step"]
         ci, tok, kind, level = rec["ci"], rec["tok"], rec["kind"], rec["level"]
+        if size_refused.get(ci):
+            # the proxy answers an oversized request with an error and closes: what the client sent after it on the
+            # same connection has no defined fate (still: it must not travel on unauthenticated)
+            bump("after_oversized_request")
+            if kind == "req" and level == "outer" and ci not in raw_tcp and got_req.get(tok) and \
+                    verdict_http(model, step.get("cred"), path_header)[0] == "reject":
+                v.append({"class": "unauthenticated_forwarded", "key": {"path": fam, "handled_as": "http", "cred": "after_oversized"},
+                          "msg": f"client {ci}: r{tok} (sent after an oversized request) must be refused but reached a peer"})
+            continue
+        if kind == "req" and over_limit(step):
+            size_refused[ci] = True
         if kind == "socks":
             path = "socks5"
             methods = step.get("methods", [])
@@ -752,6 +840,9 @@ def oracle(sc, log, recs, w):
             # inside a tunnel that the proxy agreed to open: every request is expected at the origin
             if tunnel_ok.get(ci) == "reject":
                 continue  # already reported at the CONNECT / SOCKS step
+            if over_limit(step):
+                bump("over_body_size_limit")
+                continue  # the proxy may refuse it for its size; nothing to say about authentication
             fwd = got_req.get(tok, [])
             if rec["status"] == 200 and rec["served"] and fwd:
                 bump("tunnel_inner_forwarded")
@@ -801,6 +892,25 @@ def oracle(sc, log, recs, w):
                                  f"relayed the connection as raw TCP (no HTTP hooks, no authentication): peer saw {len(fwd)} "
                                  f"request(s), client got {rec['status']}"})
             continue
+        if kind == "req" and step.get("body"):
+            bump("body_requests")
+            if streamed(step):
+                bump("body_over_stream_threshold")
+                if verdict == "reject":
+                    bump("unauthenticated_body_over_stream_threshold")
+            if step.get("te") == "chunked":
+                bump("chunked_body_requests")
+            if step.get("expect"):
+                bump("expect_100_continue")
+        if kind == "req" and over_limit(step):
+            # the proxy may answer 413 (before or instead of the authentication answer) and close: the only
+            # obligation left is that nothing of an unauthenticated request travels on
+            bump("over_body_size_limit")
+            if verdict == "reject" and fwd:
+                v.append({"class": "unauthenticated_forwarded", "key": {"path": path, "handled_as": "http", "cred": label},
+                          "msg": f"client {ci}: {kind} r{tok} (body over body_size_limit) with credentials {step.get('cred')} "
+                                 f"must be refused but reached a peer ({len(fwd)} time(s))"})
+            continue
         if verdict == "reject":
             if forwarded:
                 v.append({"class": "unauthenticated_forwarded", "key": {"path": path, "handled_as": "http", "cred": label},
@@ -834,15 +944,23 @@ def oracle(sc, log, recs, w):
         for e in fwd if isinstance(fwd, list) else []:
             m = e.get("msg") if isinstance(e, dict) else None
             if m is None:
+                if isinstance(e, dict) and e.get("raw") and re.search(rb"\r\n" + path_header.encode() + rb"[ \t]*:", e["raw"], re.I):
+                    v.append({"class": "credential_forwarded", "key": {"path": path, "header": path_header},
+                              "msg": f"client {ci}: {kind} r{tok}: {path_header} inside an incomplete request at {e['zone']} peer {e['addr']}"})
                 continue
             leaked = m.get_all(path_header.encode())
             if leaked:
                 v.append({"class": "credential_forwarded", "key": {"path": path, "header": path_header},
                           "msg": f"client {ci}: {kind} r{tok}: {path_header} {leaked!r} reached {e['zone']} peer {e['addr']}"})
     if w.crashes:
+        # a crashed layer leaves requests unanswered: report the crash instead of what follows from it, but never hide
+        # that something unauthenticated travelled on or that a credential leaked
         t, msg, tb = w.crashes[0]
-        v = [{"class": "crash", "key": {"where": tb.split(" @ ")[-1] if " @ " in tb else msg[:60], "exc": tb.split(":")[0]},
-              "msg": f"t={t:.6f} {msg} {tb}"}]
+        v = [{"class": "crash", "key": {"where": tb.split(" @ ")[-1] if " @ " in tb else msg[:60], "exc": tb.split(":")[0],
+                                        "unauthenticated_streamed_request": unauth_streamed},
+              "msg": f"t={t:.6f} {msg} {tb}" + (" -- an unauthenticated request whose body crosses stream_large_bodies: "
+                                               "the client gets no authentication-required answer" if unauth_streamed else "")}] + \
+            [x for x in v if x["class"] in ("unauthenticated_forwarded", "credential_forwarded")]
     seen, uniq = set(), []
     for x in v:
         s = (x["class"], repr(sorted(x["key"].items())))
